@@ -67,7 +67,7 @@ def run_case(case, stats):
             root(s)
             return s.tell()
 
-        r = gen.accepted_input(drng, p, stats=stats)
+        r = gen.accepted_input(drng, p, stats=stats, long_runs=gen.has_null_terminated(case["defs"]))
         if r is None:
             raise Discard("no_accepted_input")
         data, used = r
